@@ -197,6 +197,7 @@ def classify(t):
         return ('W', c.split('::')[-1])
     if c == 'futures::Stream::poll_next' and 'Fuse<' in st: return ('R', 'poll_next')
     if c.startswith('tokio::sync::mpsc::Receiver') and c.endswith('poll_recv'): return ('Q', 'poll_recv')
+    if c.startswith('tokio::sync::mpsc::Receiver') and c.endswith('::close'): return ('CLOSEQ', 'close')
     if c.startswith('tokio::sync::mpsc::UnboundedReceiver') and c.endswith('poll_recv'): return ('K', 'poll_recv')
     if 'DelayQueue' in c and c.endswith('poll_expired'): return ('T', 'poll_expired')
     if 'DelayQueue' in c and c.endswith('::is_empty'): return ('T', 'is_empty')
@@ -228,6 +229,53 @@ class SinkAut:
             if shape == 'Pending': return ('close_pending', unflushed, rps)
             return ('failed', unflushed, rps)
         return aut
+
+class VecAut:
+    name = 'vec'
+    ORDER = ['R', 'Q', 'K', 'T', 'W']
+    def init(self): return ('unpolled',) * 5 + (False,)
+    def step(self, aut, ev, shape, site, viol):
+        a = list(aut)
+        if ev[0] == 'CLOSEQ': a[5] = True; return tuple(a)
+        i = self.ORDER.index(ev[0])
+        if ev[0] == 'W':
+            if ev[1] == 'start_send': return aut
+            a[i] = 'Pending' if shape == 'Pending' else ('Ok' if shape == ('Ready', ('Ok', STAR)) else 'Err')
+        elif ev[1] == 'is_empty':
+            if shape is True: a[i] = 'Closed'
+        else:
+            a[i] = 'Pending' if shape == 'Pending' else ('Closed' if shape == ('Ready', 'None') else 'Progress')
+        return tuple(a)
+
+class CtxAut:
+    """one wake source joined with the context its exemptions need: (S_last, W_last, drain)"""
+    def __init__(self, src): self.src = src; self.name = 'ctx_' + src
+    def init(self): return ('unpolled', 'unpolled', False)
+    def step(self, aut, ev, shape, site, viol):
+        s_, w, d = aut
+        if ev[0] == 'CLOSEQ': return (s_, w, True)
+        if ev[0] == 'W':
+            if ev[1] != 'start_send':
+                w = 'Pending' if shape == 'Pending' else ('Ok' if shape == ('Ready', ('Ok', STAR)) else 'Err')
+        if ev[0] == self.src:
+            if ev[1] == 'is_empty':
+                if shape is True: s_ = 'Closed'
+            else:
+                s_ = 'Pending' if shape == 'Pending' else ('Closed' if shape == ('Ready', 'None') else 'Progress')
+        return (s_, w, d)
+
+class CloseAut:
+    name = 'close'
+    def init(self): return ('unpolled', 'unpolled')
+    def step(self, aut, ev, shape, site, viol):
+        q, k = aut
+        def oc(shape): return 'Pending' if shape == 'Pending' else ('Closed' if shape == ('Ready', 'None') else 'Progress')
+        if ev[0] == 'Q' and ev[1] == 'poll_recv': q = oc(shape)
+        if ev[0] == 'K': k = oc(shape)
+        if ev == ('W', 'poll_close'):
+            if (q, k) != ('Closed', 'Closed'): viol[('CLOSE_BEFORE_BOTH_QUEUES_CLOSED', site, q, k)] += 1
+            else: viol[('ok: close with both queues closed', site)] += 1
+        return (q, k)
 
 class SrcAut:
     def __init__(self, src): self.src = src; self.name = 'src_' + src
@@ -491,7 +539,7 @@ class Interp:
 if __name__ == '__main__':
     entry = sys.argv[1] if len(sys.argv) > 1 else '<client::RequestDispatch<Req, Resp, C> as futures::Future>::poll'
     which = sys.argv[2] if len(sys.argv) > 2 else 'sink'
-    A = SinkAut() if which == 'sink' else SrcAut(which)
+    A = CloseAut() if which == 'close' else SinkAut() if which == 'sink' else (VecAut() if which == 'vec' else (CtxAut(which[4:]) if which.startswith('ctx_') else SrcAut(which)))
     t0 = time.time()
     I = Interp(A)
     res = I.summarize(entry, tuple(STAR for _ in range(FN[entry]['argc'])), A.init())
